@@ -580,3 +580,28 @@ def _literal_values(ctx: Ctx, m, ann) -> list:
         els = ann.slice.elts if isinstance(ann.slice, ast.Tuple) else [ann.slice]
         return [e.value for e in els if isinstance(e, ast.Constant)]
     return []
+
+
+def check_partial_scope(ctx: Ctx, r: Rule, roots: list, contracts: Optional[dict] = None) -> None:
+    """Every partial operation in the functions reachable from `roots` is discharged by a guard idiom."""
+    from .escape import graph
+
+    cg = graph(ctx)
+    scope = cg.reachable(roots)
+    D = Discharger(ctx, contracts or {})
+    for q in sorted(scope):
+        g = cg.funcs.get(q)
+        if g is None:
+            continue
+        edges = [e for e in cg.callers_of(q) if e.caller in scope and e.rec is not None]
+        if edges and all(e.rec.inlined for e in edges) and not any(e.kind == "cha" for e in cg.callers_of(q) if e.caller in scope):
+            continue
+        s = cg.summary(g)
+        for ob in Collector(ctx, g, s).collect():
+            how = D.discharge(ob)
+            if how is not None and how.startswith("D15") and not D.maybe_none(ob.term if ob.kind == "NOTNONE" else ("const", 0), ob):
+                continue
+            r.inst(f"{q}: {ob.kind} {show(ob.term)[:70]} -- {how or 'UNDISCHARGED'}")
+            if how is None:
+                fail(r, ctx, g, ob.node, f"{ob.kind} obligation not discharged: `{show(ob.term)[:160]}` in {q} can raise an internal error (not the "
+                                         f"RegexNotMatchError the dispatcher expects), so a line would abort the parse instead of being claimed or skipped")
